@@ -24,6 +24,54 @@ def h_group(E, shape, pvar):
     return pipeline.h_group(E, shape, pvar, 'C08')
 
 
+def h_refusals(E, N):
+    """Data / call-order / parameter-shape problems that ampycloud refuses: AmpycloudError and no other exception type, also
+    for the calls that follow a refused one."""
+    from ampycloud.data import CeiloChunk
+    T = Table(E, N, 1, tmin=1, tmax=1)
+    E.cover('ran')
+
+    def fresh(prms=None):
+        from ampycloud.utils import utils
+        orig = utils.check_data_consistency
+        utils.check_data_consistency = pipeline._light_checker
+        try:
+            return CeiloChunk(T.frame(), prms=dict({'MSA': None, 'MAX_HITS_OKTA0': 0}, **(prms or {})))
+        finally:
+            utils.check_data_consistency = orig
+    cl = []
+
+    def refused(name, fn, must=True):
+        # must=False: the call may also succeed (e.g. no group exists, so the separation table is never consulted);
+        # what the property rules out is any exception type other than AmpycloudError
+        with WarningLog():
+            k, r = outcome(fn)
+        if k == 'AmpycloudError':
+            E.cover('a parameter-shape problem refused')
+        cl.append(('%s: %s (got %s)' % (name, 'AmpycloudError' if must else 'AmpycloudError or success', k),
+                   k == 'AmpycloudError' or (not must and k == 'ok')))
+    c = fresh()
+    refused('find_groups before find_slices', c.find_groups)
+    refused('find_layers before find_groups', c.find_layers)
+    for w in ('slices', 'groups', 'layers'):
+        refused('metarize(%s) before its stage' % w, lambda w=w: c.metarize(w))
+        refused('metar_msg(%s) before its stage' % w, lambda w=w: c.metar_msg(w))
+    refused('metarize(unknown)', lambda: c.metarize('clouds'))
+    c = fresh()
+    c.find_slices()
+    refused('find_layers right after find_slices', c.find_layers)
+    # MIN_SEP_VALS / MIN_SEP_LIMS of incompatible lengths: refused in find_groups, and nothing else but refusals afterwards
+    c = fresh({'MIN_SEP_VALS': [250, 1000], 'MIN_SEP_LIMS': []})
+    c.find_slices()
+    refused('find_groups with incompatible MIN_SEP lengths', c.find_groups, must=False)
+    if N >= 1 and c.n_slices and c.n_slices > 0:
+        refused('find_layers after the (possibly refused) find_groups', c.find_layers, must=False)
+        refused('metar_msg(layers) after the (possibly refused) find_groups', lambda: c.metar_msg('layers'), must=False)
+    c = fresh({'SLICING_PRMS': {'height_scale_mode': 'no-such-mode', 'height_scale_kwargs': {}}})
+    refused('find_slices with an unknown scaling mode', c.find_slices, must=False)
+    return cl
+
+
 HARNESSES = [
     H('H-run', h_run, quick=[(1, 1, 0, 1), (1, 1, 1, 1), (1, 1, 2, 1), (2, 1, 0, 1), (2, 2, 0, 0), (2, 1, 1, 0), (2, 1, 2, 0), (2, 1, 3, 0), (2, 1, 4, 0), (2, 2, 5, 0)],
       thorough=[(n, c, p, 0) for n in (1, 2) for c in (1, 2) for p in range(6) if c <= n] + [(3, 1, 0, 0), (3, 1, 2, 0)] +
@@ -40,5 +88,7 @@ HARNESSES = [
       assumptions=['H-group: state after slicing constructed directly (one ceilometer, type 1, times increasing with the row '
                    'index, every valid partition shape listed in the size vector); per-bundle clustering answers an arbitrary partition'],
       doc='real metarize(slices) + find_groups() from a constructed post-slicing state: no exception of any kind'),
+    H('H-refusals', h_refusals, quick=[(1,), (2,)], thorough=[(1,), (2,), (3,)], float_model='R', cover=['ran', 'a parameter-shape problem refused'], scripted=True,
+      doc='refused calls (wrong call order, unknown names, incompatible MIN_SEP lengths, unknown scaling mode) raise AmpycloudError and nothing else, including the calls made after a refused one'),
 ]
 get_harness = make_get(HARNESSES)
